@@ -52,7 +52,7 @@ pub fn run(ctx: &Ctx) -> i32 {
     let none = CompressionWithLevel::None;
 
     // ---- destinations
-    let maxlen = if ctx.thorough() { 7 } else { 5 };
+    let maxlen = if ctx.thorough() { 9 } else { 5 };
     let n = strings_count(DTOK.len(), maxlen);
     let a = merge(par_fold(n, Acc::new, |i, acc| {
         let mut t = vec![];
@@ -79,7 +79,7 @@ pub fn run(ctx: &Ctx) -> i32 {
     let s1 = SubReport::new("destinations", "A", &format!("every sequence of ≤ {} tokens over {:?} ({} strings) as FileOptions destination through with_file + build; oracle: no panic; Err when the string does not start with '/' or './', has no name component or ends in '..'; non-trivial = accepted", maxlen, DTOK, n), a);
 
     // ---- the same payload path named twice (two with_file calls), in its two spellings './P' and '/P'
-    let plen = if ctx.thorough() { 7 } else { 6 };
+    let plen = if ctx.thorough() { 9 } else { 6 };
     let np = strings_count(DTOK.len(), plen);
     let a2 = merge(par_fold(np * 3, Acc::new, |j, acc| {
         let (i, variant) = (j / 3, j % 3);
@@ -122,7 +122,7 @@ pub fn run(ctx: &Ctx) -> i32 {
 
     // ---- any two destinations in one builder: the same directory spelled differently, nested spellings, file-vs-directory clashes
     let xtok = ["/", ".", "a", "b"];
-    let xlen = if ctx.thorough() { 6 } else { 5 };
+    let xlen = if ctx.thorough() { 7 } else { 5 };
     let mut xs: Vec<String> = vec![];
     for i in 0..strings_count(xtok.len(), xlen) {
         let mut t = vec![];
